@@ -64,7 +64,9 @@ impl BlocksCount {
     pub fn passed_from(&self, prev: &BlocksCount) -> usize {
         match self.lines {
             lines if lines < prev.lines => ATTR_COLS - prev.columns,
-            lines if lines == prev.lines => self.columns - prev.columns,
+            // position can be behind `prev` on the same line after a snapshot with its own
+            // frame clocks has been loaded in the middle of the frame, nothing has passed then
+            lines if lines == prev.lines => self.columns.saturating_sub(prev.columns),
             _ => {
                 (ATTR_COLS - prev.columns)
                     + (self.lines - prev.lines - 1) * ATTR_COLS
